@@ -48,6 +48,7 @@ type Consumer struct {
 	StopAfterError bool     `json:"stop_after_error,omitempty"` // stops reading once an error was seen
 	StopAfter      int      `json:"stop_after,omitempty"`       // stops reading after N messages (0 = never)
 	Hold           bool     `json:"hold,omitempty"`             // keep every message until the end (C12)
+	Sleeps         [][2]int `json:"sleeps_ms,omitempty"`        // [message index, milliseconds of simulated time the application is busy]
 }
 
 // OutMsg is one message a producer submits.
